@@ -9,6 +9,9 @@ implementation's outputs (independent of the model):
   still queued, delivered to exactly one consumer, counted as expired, or lost with a consumer that died;
   nothing else appears anywhere;
 * at most once; batch size ≤ n; a probe with explicit ready ≥ expiry is never queued;
+* WHICH probes vanished (`vanishOk`): the probes that are neither queued nor delivered can be distributed over the consumers so
+  that each live consumer gets exactly as many as it counted as expired, each of them ready and strictly past its expiry by the
+  clock at which that consumer's call finished; anything left over is lost with a consumer that died — no unexpired probe vanishes;
 * not early / not late (against the clock value when the delivering call started / finished);
 * each batch is ordered by ready time (`PopMany` sorts the items of all its rounds by queue score before it returns;
   `Swat4.C12.batch_sorted_all`).  A violation is reported with a signature that tells the cause apart:
@@ -58,6 +61,15 @@ def timed (timeline : String) : List (String × Int) :=
 
 def isSortedBy (xs : List Int) : Bool := (xs.zip (xs.drop 1)).all fun p => decide (p.1 ≤ p.2)
 
+/-- can the vanished probes `vs` be distributed so that every live consumer `(i, k)` of `caps` gets exactly the `k` probes it
+counted as expired, each one `elig`ible for it, the rest being lost with a consumer that died (`canLose`)? -/
+def assignVanished {α : Type} (elig : α → Nat → Bool) (canLose : α → Bool) : List α → List (Nat × Nat) → Bool
+  | [], caps => caps.all fun c => c.2 == 0
+  | v :: rest, caps =>
+    (caps.any fun c => decide (c.2 > 0) && elig v c.1 &&
+      assignVanished elig canLose rest (caps.map fun c' => if c'.1 == c.1 then (c'.1, c'.2 - 1) else c')) ||
+    (canLose v && assignVanished elig canLose rest caps)
+
 def oracle (specs : List String) (itimeline ires idump : String) : Bool × String :=
   let results := ires.splitOn ";"
   let tl := timed itimeline
@@ -102,6 +114,19 @@ def oracle (specs : List String) (itimeline ires idump : String) : Bool × Strin
     let start := ts.headD epoch
     let fin := ts.getLastD epoch
     d.2.2.2.all fun p => decide (readyOfPayload p ≤ fin) && (match expiryOfPayload p with | none => true | some e => decide (e ≥ start))
+  -- WHICH probes vanished (enqueued, neither queued nor delivered; a port identifies a probe): every one of them must be a probe
+  -- some live consumer could count as expired — popped by it (ready ≤ the clock when its call finished) with an expiry strictly
+  -- before that clock — each consumer getting exactly as many as it reported; what is left over must be explicable by a consumer
+  -- that died (ready by the time it died; at most its batch size of them unexpired).  So no unexpired probe vanishes.
+  let finOf (i : Nat) : Int := (clientTimes i).getLastD epoch
+  let vanished := enqueued.filter fun (x : Nat × PSpec) => !queuedPorts.contains x.2.port && !deliveredPorts.contains x.2.port
+  let expiredBy (x : Nat × PSpec) (t : Int) : Bool := match x.2.before with | some e => decide (e < t) | none => false
+  let eligible (x : Nat × PSpec) (i : Nat) : Bool := decide (readyOf x ≤ finOf i) && expiredBy x (finOf i)
+  let canLose (x : Nat × PSpec) : Bool := crashedConsumers.any fun (c : Nat × Int) => decide (readyOf x ≤ finOf c.1)
+  let lostUnexpired := vanished.filter fun (x : Nat × PSpec) => !(deliveries.any fun d => eligible x d.1)
+  let lossBudget : Int := (crashedConsumers.map fun (c : Nat × Int) => max c.2 0).foldl (· + ·) 0
+  let vanishOk := assignVanished eligible canLose vanished (deliveries.map fun d => (d.1, d.2.2.1)) &&
+    decide ((lostUnexpired.length : Int) ≤ lossBudget)
   let consistent := match parseDump idump with | some st => st.consistentB | none => false
   -- signature of the former defect C12-late-past-ready (regression of PopMany's final sort): a producer with ready < clock at its
   -- enqueue executed between two pop batches of that consumer
@@ -114,11 +139,12 @@ def oracle (specs : List String) (itimeline ires idump : String) : Bool × Strin
         decide (lo < x.1) && decide (x.1 < hi) && enqueued.any fun (q : Nat × PSpec) => x.2.1 == s!"{q.1}:exec:ok" && decide (readyOf q < x.2.2))
     | _, _ => false
   let hung := results.any fun r => r == "hung" || r.startsWith "panic"
-  let hard := amo && known && neverQueued && conservation && sizeOk && timingOk && consistent && !hung
+  let hard := amo && known && neverQueued && conservation && sizeOk && timingOk && vanishOk && consistent && !hung
   let ok := hard && unsorted.isEmpty
   (ok, (if amo then "" else "sig=delivered-twice ") ++ (if known then "" else "sig=unknown-probe ") ++ (if neverQueued then "" else "sig=refused-probe-queued ") ++
        (if conservation then "" else s!"sig=conservation:enqueued={enqueued.length}:accounted={accounted} ") ++ (if sizeOk then "" else "sig=batch-too-large ") ++
-       (if timingOk then "" else "sig=timing ") ++ (if consistent then "" else "sig=leak ") ++ (cond hung "sig=not-terminated " "") ++
+       (if timingOk then "" else "sig=timing ") ++
+       (if vanishOk then "" else s!"sig=vanished-not-expired:vanished={vanished.map fun (x : Nat × PSpec) => x.2.port}:expired-counts={deliveries.map fun d => (d.1, d.2.2.1)} ") ++ (if consistent then "" else "sig=leak ") ++ (cond hung "sig=not-terminated " "") ++
        (if unsorted.isEmpty then "" else if latePast && hard then "sig=late-past-ready" else "sig=batch-unsorted"))
 
 def handle (args out : List String) : Verdict :=
